@@ -592,6 +592,8 @@ LITERAL_WITNESSES = [
     ("='Q1  totals'!$B$2+1", [('Q1  totals!$B$2', 'range'), ('1', 'number')]),
     ('=IF(A1>=1,"y, z",":x")', [('A1', 'range'), ('1', 'number'), ('y, z', 'text'), (':x', 'text')]),
     ('=  "k"  ', [('k', 'text')]),
+    ('="@"', [('@', 'text')]), ('="@home"', [('@home', 'text')]), ('=A1&"@example.com"', [('A1', 'range'), ('@example.com', 'text')]), ('="@@"', [('@@', 'text')]),
+    ('="_xlfn.CONCAT(A1)"&"a _XLFN.b"', [('_xlfn.CONCAT(A1)', 'text'), ('a _XLFN.b', 'text')]), ('="=1+1"', [('=1+1', 'text')]), ('="+1"&"-x"', [('+1', 'text'), ('-x', 'text')]),
     ('="x""""y"&""""""', [('x""y', 'text'), ('""', 'text')]),
 ]
 
